@@ -338,3 +338,38 @@ Qed.
 
 Lemma voting_power_overflow : voting_power_gen (2 ^ 130 * 10 ^ 18) (2 ^ 130) = Panic.
 Proof. vm_compute. reflexivity. Qed.
+
+(* ---- slashes on a pending undelegation, then maturity ---- *)
+Lemma slash_undel_range amount actual p : 0 <= amount -> 0 <= p -> 0 <= actual ->
+  0 <= slash_undel amount actual p <= actual.
+Proof.
+  intros Ha Hp H. pose proof P_pos as HP. unfold slash_undel. destruct (actual =? 0); [lia|].
+  assert (0 <= (p * amount) / P) by (apply Z.div_pos; nia).
+  destruct (actual <=? (p * amount) / P) eqn:E; [lia|]. apply Z.leb_gt in E. lia.
+Qed.
+
+Lemma slash_undel_all_nonneg amount ps : 0 <= amount -> Forall (fun p => 0 <= p) ps ->
+  forall actual, 0 <= actual -> Forall (fun a => 0 <= a) (slash_undel_all amount actual ps).
+Proof.
+  intros Ha HF. induction HF as [|p r Hp HF IH]; intros actual H; simpl; [constructor|].
+  destruct (slash_undel_range amount actual p Ha Hp H) as [H1 _]. constructor; [exact H1|apply IH; exact H1].
+Qed.
+
+Lemma last_actual_nonneg amount ps : 0 <= amount -> Forall (fun p => 0 <= p) ps -> 0 <= last_actual amount ps.
+Proof.
+  intros Ha HF. unfold last_actual.
+  pose proof (slash_undel_all_nonneg amount ps Ha HF amount Ha) as H.
+  induction (slash_undel_all amount amount ps) as [|x l IH]; simpl; [exact Ha|].
+  inversion H as [|? ? Hx Hl]; subst. destruct l; [exact Hx|]. apply IH. exact Hl.
+Qed.
+
+Lemma undelegation_maturity_no_panic native amount ps : 0 <= amount -> Forall (fun p => 0 <= p) ps ->
+  complete_gen native (last_actual amount ps) = Ok (last_actual amount ps).
+Proof.
+  intros Ha HF. unfold complete_gen. pose proof (last_actual_nonneg amount ps Ha HF) as H.
+  destruct (last_actual amount ps <? 0) eqn:E; [apply Z.ltb_lt in E; lia|reflexivity].
+Qed.
+
+(* the guard is exactly non-negativity: a negative completable amount of a native record halts the block end *)
+Lemma complete_negative_native a : a < 0 -> complete_gen true a = Panic.
+Proof. intro H. unfold complete_gen. destruct (a <? 0) eqn:E; [reflexivity|apply Z.ltb_ge in E; lia]. Qed.
